@@ -13,8 +13,8 @@ CLAIMS = {
     'C12': 'StreamFrameReader::read from an arbitrary carry-over state under any segmentation into <= K reads; truncation => error for the SOCKS readers; readers consume exactly their message',
     'C13': 'is_timeout against a symbolic clock, activity resets, per-connection period plumbing (create_context, idle_timeout, set_idle_timeout), start-up wiring of timeouts.idle, the ticker arm of copy_bidi',
     'C16': 'dispatcher lifecycle order (state sequence, exactly one terminal event, used connector recorded before use), ContextRefOps on_connect/on_error/enqueue bookkeeping, set_state appends exactly one entry, Drop queues the final record exactly once, id allocation, counters',
-    'C08': 'per builtin operator (unary, integer, boolean, comparison): for exactly the literal operand types its own signature accepts, call reaches no panic site, returns a value of the promised type and does not fail (division by zero/overflow excepted)',
-    'C18': 'panic-site unreachability in the hand-written configuration loaders (connectors/listeners from_value + from_config, rules::from_config, Rule::init, Filter::validate, load-balancer init/verify, socks connector init) for arbitrary YAML shapes; candidates confirmed against the real loader with a YAML battery',
+    'C08': 'per builtin operator (unary, integer, boolean, comparison, index, to_string/to_integer): for exactly the operand types its own signature accepts -- operands being literals, let-bound names, 2-element arrays or let-bound arrays, evaluated through the real type_of/real_type_of/value_of/real_value_of -- call reaches no panic site, returns a value of the promised type and does not fail (division by zero/overflow/non-numeric string/out-of-range index excepted); the checker itself never panics on any argument count (0..3) of a nameable function or any tuple index; request.* accessors declare the type of the value they hand out; composed programs beyond one operator application are outside the bound',
+    'C18': 'panic-site unreachability in the hand-written configuration loaders (connectors/listeners from_value + from_config, rules::from_config, Rule::init, Filter::validate, load-balancer init/verify, socks connector init) for arbitrary YAML shapes; an accepted load balancer has only defined members, carries its compiled hashBy expression, and is not reachable from itself in any member graph of two balancers and one upstream (walk terminates); candidates confirmed against the real loader',
     'C15': 'set_rules: accepted iff every rule compiles and names an existing upstream; on rejection the previous list object is untouched; on acceptance the stored list is exactly the posted rules resolved to the upstreams they name',
     'C17': 'round-robin index = ticket mod n with one atomic fetch_add, hash-by index a function of (key value, n) only, random picks a member, the used member is the one recorded before it is used',
 }
